@@ -43,7 +43,7 @@ def value_sets(path, go, rng):
         return [{"path": path, "vk": "float64", "bits": str(f64bits(v))} for v in (0.0, -0.0, 0.5, 1.0, 1.5, 2.5, -2.5, 10.0, 100.0, 1e300, float("inf"), float("nan"))]
     if go == "string":
         return [{"path": path, "vk": "string", "str": s.encode().hex()} for s in ("", "a", "ab", "abc", "prefix_x", "x_suffix", "héllo", "日本語", "a1b2", "ABC", "12", "admin", "x y", "90s", "1m30s",
-                                                                                  "[", "a+(", "Admin1", "xABCx", "a\nb", "x.go", "É", "a  b", "a b", "a\tb", " a", "a ", "A", "x  y", "a\\b", "a\"b", "a'b")] + \
+                                                                                  "[", "a+(", "new", "new york", "\"", "!", "tokyo", "Admin1", "xABCx", "a\nb", "x.go", "É", "a  b", "a b", "a\tb", " a", "a ", "A", "x  y", "a\\b", "a\"b", "a'b")] + \
                [{"path": path, "vk": "string", "str": "ff"}]
     if go == "bool":
         return [{"path": path, "vk": "bool", "bool": b} for b in (True, False)]
@@ -280,6 +280,15 @@ FIXED = [
     ("string", "value.matches('(?i)^admin')"), ("string", "value.matches('(?i)abc')"), ("string", "value.matches('(?i)b$')"), ("string", "matches(value, '(?i)^a$')"),
     ("string", "value.matches('^admin')"), ("string", "value.matches('abc')"), ("string", "value.matches('^abc$')"), ("string", "value.matches('a.c')"),
     ("string", "value.matches('(?s)a.b')"), ("string", "value.matches('\\\\.go$')"), ("string", "value.matches('^\\\\d+$')"), ("string", "value.matches('(?i)é')"),
+    # long literal lists (a rendering may switch strategy with the length): members that are prefixes of each other, blanks,
+    # characters that are escaped in Go source, unsorted order, duplicates
+    ("string", "value in ['berlin', 'london', 'madrid', 'new', 'new york', 'oslo', 'paris', 'rome', 'tokyo']"),
+    ("string", "value in ['!', '\"', '#', '$', '&', '(', ')', '*', '+', 'a']"),
+    ("string", "value in ['tokyo', 'rome', 'paris', 'oslo', 'new york', 'new', 'madrid', 'london', 'berlin', 'a', 'a', 'A', '', ' a', 'a ']"),
+    ("string", "!(value in ['a\tb', 'a b', 'a  b', 'ab', 'a', 'b', 'abc', 'ABC', 'é', 'x y', 'x  y'])"),
+    ("int", "value in [1, 2, 3, 5, 8, 13, 21, 34, 55, 89, 100, 127, 128, 200]"), ("int", "value in [200, 128, 127, 100, 3, 2, 1, 0, -1, -3, 10, 50, 64]"),
+    ("uint8", "value in [1u, 2u, 3u, 5u, 10u, 100u, 127u, 128u, 200u, 255u]"), ("float64", "value in [0.5, 1.0, 1.5, 2.5, -2.5, 10.0, 100.0, 0.0, 1e300]"),
+    ("[]string", "value.all(x, x in ['a', 'b', 'admin', 'é', 'abc', '', 'x', 'new', 'new york'])"),
     # patterns only known at run time (D35, fixed): guarded regexp.Compile
     ("string", "value.matches(this.S)"), ("string", "matches(this.S, value)"), ("string", "value.matches(this.S + '$')"), ("[]string", "value.all(x, x.matches(this.S))"),
     ("string", "this.S.matches(value)"), ("string", "value.matches('^a' + 'b')"),
